@@ -15,7 +15,7 @@ EXPLANATION = (
     "colour name once and reject partial groups and wrong state ranges, and run (with the extension-name validation) before "
     "anything is written; that every writer loop makes progress, in particular that max_points_per_packet >= 1 so that "
     "finalize's drain loop ends; and whether validate_name implies XML-name validity (it does not for a leading digit or "
-    "dash: listed known finding). Caller strings pass the escaping gate of C04-R5 (a string altered by double escaping is a value stored unfaithfully). Not decided: that accepted input always reads back (C01/C04/C06 clauses).")
+    "dash: listed known finding). Each Is<X>Invalid flag is rejected without its value record <X> and accepted with it. Caller strings pass the escaping gate of C04-R5 (a string altered by double escaping is a value stored unfaithfully). Not decided: that accepted input always reads back (C01/C04/C06 clauses).")
 
 
 def run(ctx):
@@ -35,6 +35,7 @@ def run(ctx):
         validation_rules.add_point_validation(ctx, prog, "R4")
         bounds_rules.validation_before_update(ctx, prog, "R4")
         validation_rules.prototype_validation(ctx, prog, "R5")
+        validation_rules.flag_value_pairs(ctx, prog, "R5")
         bound_rules.loop_progress(ctx, prog, "R6", "writer", floor=8)
         bound_rules.allocation_sizes(ctx, prog, "R6", "writer")
         bound_rules.equal_length_classes(ctx, prog, "R6")
